@@ -1,5 +1,6 @@
 import Driver.Codec
 import BioscrapeModel.Model.EntryPoint
+import BioscrapeModel.Model.ModelState
 
 /-
 `modeldriver`: one JSON job per input line, one JSON answer per output line
@@ -216,6 +217,52 @@ def jobRule (j : Json) : Except String Json := do
   let (x', p') := r.execute x p vol t dt (getBoolD j "rs" true)
   return Json.mkObj [("x", encList x'), ("p", encList p')]
 
+def dumpMState (m : MState α) : Json :=
+  Json.mkObj [("species", Json.arr (m.species.map Json.str).toArray), ("speciesVals", encList m.speciesVals),
+    ("params", Json.arr (m.params.map Json.str).toArray),
+    ("paramVals", Json.arr (m.paramVals.map (fun v => match v with | some x => Codec.enc x | none => Json.null)).toArray),
+    ("initialized", Json.bool m.initialized), ("dummy", Json.num (JsonNumber.fromNat m.dummy))]
+
+def decMOp (j : Json) : Except String (MOp α) := do
+  let a ← j.getArr?
+  let tag ← (a.getD 0 Json.null).getStr?
+  let arg (i : Nat) : Json := a.getD i Json.null
+  let strs (x : Json) : Except String (List String) := do (← x.getArr?).toList.mapM (·.getStr?)
+  match tag with
+  | "addSpecies" => return .addSpecies (← (arg 1).getStr?)
+  | "createParameter" => return .createParameter (← (arg 1).getStr?) (← Codec.dec (arg 2))
+  | "setParameter" => return .setParameter (← (arg 1).getStr?) (← Codec.dec (arg 2))
+  | "setSpecies" =>
+    let kv ← (arg 1).getArr?
+    let vals ← kv.toList.mapM (fun e => do
+      let p ← e.getArr?
+      return ((← (p.getD 0 Json.null).getStr?), (← Codec.dec (α := α) (p.getD 1 Json.null))))
+    return .setSpecies vals
+  | "createMassAction" =>
+    let k ← match (arg 3).getObjVal? "name" with
+      | .ok n => pure (KArg.name (← n.getStr?))
+      | .error _ => do pure (KArg.num (← Codec.dec (α := α) (← (arg 3).getObjVal? "num")))
+    return .createMassAction (← strs (arg 1)) (← strs (arg 2)) k
+  | "initialize" => return .initialize
+  | t => throw s!"bad model op {t}"
+
+/-- a history of edits on an empty model; the state after every operation. -/
+def jobModelOps (j : Json) : Except String Json := do
+  let ops ← (← getArr j "ops").toList.mapM (decMOp (α := α))
+  let mut m : MState α := MState.empty
+  let mut outs : Array Json := #[]
+  for op in ops do
+    match m.step op with
+    | .ok m' => m := m'; outs := outs.push (Json.mkObj [("result", "ok"), ("state", dumpMState m)])
+    | .error e =>
+      -- `_add_species` / `_add_param` clear `initialized` before they can raise
+      m := match op with
+        | .initialize => m
+        | .setSpecies _ => m
+        | _ => { m with initialized := false }
+      outs := outs.push (Json.mkObj [("result", "error"), ("msg", e), ("state", dumpMState m)])
+  return Json.mkObj [("outs", Json.arr outs)]
+
 def dispatch (op : String) (j : Json) : Except String Json :=
   match op with
   | "prop" => jobProp (α := α) j
@@ -225,6 +272,7 @@ def dispatch (op : String) (j : Json) : Except String Json :=
   | "sim" => jobSim (α := α) j
   | "rv" => jobRv (α := α) j
   | "rule" => jobRule (α := α) j
+  | "modelops" => jobModelOps (α := α) j
   | _ => throw s!"unknown op {op}"
 end
 
